@@ -23,12 +23,13 @@ def load_known(prop):
 
 
 def write_evidence(prop, tier, seed, level, coverage, assumptions, wall_s, violations):
-    os.makedirs(os.path.join(VERIF, "evidence"), exist_ok=True)
+    evdir = os.path.join(VERIF, "evidence") if build.REPO == "/repo" else os.path.join(build.BUILD, "evidence-" + os.path.basename(build.lib_dir("x")))  # sensitivity runs on scratch copies never touch the committed evidence
+    os.makedirs(evdir, exist_ok=True)
     ev = {
         "property_id": prop, "tier": tier, "seed": seed, "level": level,
         "coverage": coverage, "assumptions": assumptions, "wall_s": round(wall_s, 2), "violations": violations,
     }
-    path = os.path.join(VERIF, "evidence", f"{prop}.json")
+    path = os.path.join(evdir, f"{prop}.json")
     tmp = path + ".tmp"
     with open(tmp, "w") as f:
         json.dump(ev, f, indent=1, sort_keys=True)
